@@ -47,6 +47,8 @@ def run_initcond(maxn, rhos, fixed=(), sets=True, max_inf=16, max_rec=16, worker
            % (maxn, "TRUE" if sets else "FALSE", max_inf, max_rec))
     res = tlc.run_tlc("MC_InitCond", cfg, workers=workers, coverage=True, timeout=timeout,
                       files=[("MC_InitCond.tla", mc)])
+    from .c06_trace import final_coverage
+    res.coverage = final_coverage(res)
     scen = [Scenario(json.loads(rec[1])) for rec in res.printed("IC")]
     scen.sort(key=lambda s: s.sortkey())
     return scen, res
@@ -366,7 +368,11 @@ def compare_row0(e, sc, full, ret):
                 bad.append((nm, pos, r))
         return bad, soft
 
+    def kind_ok(st):       # an SIR statement names a recovered series, an SIS statement does not
+        has_r = any(x in st for x in ("R", "Rk", "Rs", "Zs"))
+        return has_r == (e["kind"] == "SIR")
     own_c = [s for s in own if len(s) == arity]
+    own_c = [s for s in own_c if kind_ok(s)] or own_c      # copy-pasted statements of the other model last
     sib_c = [s for s in sib if len(s) == arity]
     notes = []
     # the own docstring decides whenever it speaks about this arity; the sibling's otherwise
@@ -393,7 +399,8 @@ def compare_row0(e, sc, full, ret):
                  "%s(return_full_data=%s) returns %d series but documents %s (sibling: %s)"
                  % (name, full, arity, docs, " / ".join(", ".join(s) for s in sib) or "nothing"))], notes, \
             _fallback_stmt(name, arity)
-    origin, st, bad, soft = tried[0]
+    # report against the statement that explains most of what was returned
+    origin, st, bad, soft = min(tried, key=lambda t: len(t[2]))
     names = [nm for nm, _, _ in bad]
     if any(nm in MAIN for nm in names):
         names = [nm for nm in names if nm in MAIN]       # S, I, R wrong: the auxiliary series follow
